@@ -248,6 +248,21 @@ Fixpoint ordered_ok (k : consts) (its : list iter) : bool :=
 Definition spec_its (sign : bool) (k : consts) (s0 : Z) (its : list iter) : bool :=
   forallb (iter_ok sign k s0) its && ordered_ok k its.
 
+(* the chain's TRUE height during every iteration (what the scripted chain stood at, whether or
+   not the loop asked for it, and whatever the loop believes): an iteration that announces for
+   attempt n runs while the chain is still below the announcement end block of attempt n *)
+Definition height_ok (k : consts) (s0 : Z) (it : iter) (h : Z) : bool :=
+  match i_ann it with
+  | Some (n, _) => h <? ann_end k s0 n
+  | None => true
+  end.
+Fixpoint truth_ok (k : consts) (s0 : Z) (its : list iter) (hs : list Z) : bool :=
+  match its, hs with
+  | [], [] => true
+  | it :: t, h :: t' => height_ok k s0 it h && truth_ok k s0 t t'
+  | _, _ => false
+  end.
+
 (* ---------- boolean equality of observations ---------- *)
 Definition opt_eqb {A} (f : A -> A -> bool) (a b : option A) : bool :=
   match a, b with
@@ -286,17 +301,26 @@ Definition outcome_eqb (a b : outcome) : bool :=
 (* ---------- cases ---------- *)
 Inductive kind := KSign | KDkg.
 (* one run of a real loop by member [c_self] of the group [c_ops], started at block [c_start],
-   driven by [c_script]; [c_its] / [c_out] are what the implementation did *)
+   driven by [c_script]; [c_its] / [c_out] are what the implementation did; [c_truth] is the
+   scripted chain's true height during each observed iteration (one entry per entry of [c_its]) *)
 Record case := { c_kind : kind; c_ops : list N; c_count : N; c_seed : Z; c_self : N;
                  c_limit : N; c_start : Z; c_script : list step;
-                 c_its : list iter; c_out : outcome }.
+                 c_its : list iter; c_truth : list Z; c_out : outcome }.
 
 Definition consts_of (kd : kind) : consts :=
   match kd with KSign => sign_consts | KDkg => dkg_consts end.
 Definition is_sign (kd : kind) : bool := match kd with KSign => true | KDkg => false end.
 
+(* the property on the implementation's observations: windows are the closed-form function of
+   (start block, attempt number), attempts are disjoint and ordered, and (signing) the member
+   announces for attempt n only while the chain's true height is below ann_end n.  The loop's own
+   belief about the height ([i_cur]) is NOT part of the executable property ([spec_its false]):
+   it is compared with the model's by [agree] only.  The key-generation loop observes no current
+   block: its announcement is bounded by the watcher on ann_end n ([iter_at]). *)
 Definition spec_ok (c : case) : bool :=
-  spec_its (is_sign (c_kind c)) (consts_of (c_kind c)) (c_start c) (c_its c).
+  spec_its false (consts_of (c_kind c)) (c_start c) (c_its c) &&
+  (if is_sign (c_kind c)
+   then truth_ok (consts_of (c_kind c)) (c_start c) (c_its c) (c_truth c) else true).
 
 Module Concrete.
   Definition run (c : case) : list iter * outcome :=
@@ -320,12 +344,16 @@ Module Concrete.
     let r := run c in
     lst_eqb iter_eqb (fst r) (c_its c) && outcome_eqb (snd r) (c_out c).
 
-  (* outside the model's domain: block numbers that would overflow uint64, groups above 255 *)
+  (* outside the model's domain: block numbers that would overflow uint64 (the scripted world
+     stops a loop at most 8 iterations after the end of its script), groups above 255; one true
+     height per observed iteration.  A loop that outruns its script is NOT outside the domain: the
+     scripted collaborators answer with errors and a cancelled context, the model answers
+     [OExhausted], which no implementation outcome equals. *)
   Definition case_ok (c : case) : bool :=
     (0 <=? c_start c) &&
-    (c_start c + (Z.of_nat (length (c_script c)) + 2) * max_blocks (consts_of (c_kind c)) <? two64) &&
+    (c_start c + (Z.of_nat (length (c_script c)) + 16) * max_blocks (consts_of (c_kind c)) <? two64) &&
     Nat.leb (length (c_ops c)) 255 &&
-    negb (outcome_eqb (c_out c) OExhausted).
+    Nat.eqb (length (c_truth c)) (length (c_its c)).
 
   Definition judge (c : case) : verdict :=
     if case_ok c then decide (spec_ok c) (agree c) else BadCase.
